@@ -18,5 +18,9 @@ cd /
 git -C /repo worktree remove --force "$WT" >/dev/null 2>&1
 rm -rf "$WT"
 OK=no
-if [ $A -eq 0 ] && [ $P -eq 0 ] && [ $I -eq 0 ] && [ $F -ne 0 ] && echo "$B" | grep -q "missing=0"; then OK=yes; fi
+if [ "$2" = "twin" ]; then
+  if [ $A -eq 0 ] && [ $P -eq 0 ] && [ $I -eq 0 ] && [ $F -eq 0 ] && echo "$B" | grep -q "missing=0"; then OK=yes; fi
+else
+  if [ $A -eq 0 ] && [ $P -eq 0 ] && [ $I -eq 0 ] && [ $F -ne 0 ] && echo "$B" | grep -q "missing=0"; then OK=yes; fi
+fi
 echo "$D confirmed=$OK demo_clean=$A applies=$P imports=$I demo_patched=$F $B"
